@@ -220,7 +220,14 @@ func (a *arena) load(dst, src reflect.Value) {
 		}
 		n := src.Len()
 		var s reflect.Value
-		if src.Type().Elem().Kind() == reflect.Uint8 {
+		if n == 0 && src.Cap() > 0 {
+			// an empty slice with capacity (empties.go) stays one
+			if src.Type().Elem().Kind() == reflect.Uint8 {
+				s = reflect.ValueOf(a.allocBytes(1)[:0])
+			} else {
+				s = a.alloc(src.Type().Elem(), 1).Slice(0, 0)
+			}
+		} else if src.Type().Elem().Kind() == reflect.Uint8 {
 			b := a.allocBytes(n)
 			copy(b, src.Bytes())
 			s = reflect.ValueOf(b)
@@ -251,7 +258,14 @@ func (a *arena) load(dst, src reflect.Value) {
 	case reflect.String:
 		n := src.Len()
 		if n == 0 {
-			dst.SetString("")
+			if unsafe.StringData(src.String()) == nil {
+				dst.SetString("")
+				return
+			}
+			// an empty string WITH a data pointer (empties.go) stays one: a
+			// zero-length string laid over the application's reused bytes
+			b := a.allocBytes(1)
+			dst.SetString(unsafe.String(&b[0], 0))
 			return
 		}
 		b := a.allocBytes(n)
